@@ -228,35 +228,96 @@ def r09c(ctx):
     ctx.instance("R09c", f"{f.file}:{f.ident}", "keep_tail defaults to True", ok=okd)
     if not okd:
         ctx.report("R09c", f, f.node, "keep_tail default", "deleting an element drops the following text by default")
-    # _strip_tags
+    # _strip_tags: a small source-tracking dataflow (which of text / children / tail of the clone flow where), so that the
+    # rule survives refactorings of the function
     g = repo.func("Element._strip_tags")
-    strip_arm = None
-    for n in walk_no_nested(g.node):
-        if isinstance(n, ast.If) and "in strip" in ast.unparse(n.test) and n.orelse:
-            strip_arm = n
-    if strip_arm is None:
-        raise AnalysisError("R09c: strip arm of _strip_tags not found")
+    src: dict[str, list[str]] = {}  # local name -> ordered list of sources it holds
 
-    def seq(body, fn_names):
+    def sources(e: ast.expr) -> list[str]:
         out = []
-        for s in body:
-            for c in ast.walk(s):
-                if isinstance(c, ast.Call) and call_name(c) in fn_names and c.args:
-                    out.append(ast.unparse(c.args[0]))
-                if isinstance(c, ast.Assign) and isinstance(c.targets[0], ast.Attribute) and c.targets[0].attr == "tail":
-                    out.append("tail=" + ast.unparse(c.value))
+        for x in ast.walk(e):
+            if isinstance(x, ast.Attribute) and x.attr in ("text", "tail") and isinstance(x.value, ast.Name) and x.value.id not in ("self",):
+                out.append(x.attr)
+            elif isinstance(x, ast.Name) and x.id in src:
+                for s_ in src[x.id]:
+                    if s_ not in out:
+                        out.append(s_)
         return out
 
-    s1 = seq(strip_arm.body, {"append", "extend"})
-    ok1 = s1 == ["text", "child", "tail"]
-    ctx.instance("R09c", f"{g.file}:{g.ident}", f"stripped tag contributes {s1} (text, children, tail in order)", ok=ok1, nontrivial=True, line=strip_arm.lineno)
+    kid_lists = set()
+    events = []  # (line, kind, detail)
+    stmts = sorted([n for n in walk_no_nested(g.node) if isinstance(n, (ast.Assign, ast.AnnAssign, ast.Expr, ast.For, ast.Return))], key=lambda n: n.lineno)
+    for n in stmts:
+        if isinstance(n, (ast.Assign, ast.AnnAssign)):
+            tgt = n.targets[0] if isinstance(n, ast.Assign) else n.target
+            val = n.value
+            if val is None:
+                continue
+            if isinstance(tgt, ast.Name):
+                ss = sources(val)
+                if ss:
+                    src[tgt.id] = ss
+                elif isinstance(val, (ast.List,)) and not val.elts:
+                    src.setdefault(tgt.id, [])
+                if isinstance(val, ast.List) and not val.elts and tgt.id == "children":
+                    kid_lists.add(tgt.id)
+            elif isinstance(tgt, ast.Attribute) and tgt.attr == "tail" and isinstance(tgt.value, ast.Name):
+                events.append((n.lineno, "tail=", (tgt.value.id, sources(val))))
+        elif isinstance(n, ast.Expr) and isinstance(n.value, ast.Call) and isinstance(n.value.func, ast.Attribute) and isinstance(n.value.func.value, ast.Name):
+            c = n.value
+            recv, m = c.func.value.id, c.func.attr
+            if m in ("append", "extend") and c.args:
+                arg = c.args[0]
+                ss = sources(arg)
+                if isinstance(arg, ast.Name) and (arg.id in kid_lists or arg.id in ("child", "striped_child")):
+                    ss = ["children"]
+                if recv == "children":
+                    kid_lists.add("children")
+                    continue
+                src.setdefault(recv, [])
+                for s_ in ss:
+                    if s_ not in src[recv]:
+                        src[recv].append(s_)
+            elif m in ("__append", "_Element__append") and c.args:
+                arg = c.args[0]
+                ss = sources(arg)
+                if isinstance(arg, ast.Name) and arg.id in ("child",):
+                    ss = ["children"]
+                events.append((n.lineno, "rebuild-append", (recv, ss)))
+            elif m == "clear":
+                events.append((n.lineno, "clear", recv))
+        elif isinstance(n, ast.For) and isinstance(n.target, ast.Name):
+            it = n.iter
+            if isinstance(it, ast.Name) and it.id in src:
+                src[n.target.id] = list(src[it.id])
+            elif isinstance(it, ast.Name) and it.id in kid_lists:
+                src[n.target.id] = ["children"]
+        elif isinstance(n, ast.Return) and isinstance(n.value, ast.Tuple) and n.value.elts and isinstance(n.value.elts[0], ast.Name):
+            events.append((n.lineno, "return", (n.value.elts[0].id, list(src.get(n.value.elts[0].id, [])))))
+    # fix-up: children lists referenced by name inside sources
+    for k, v in src.items():
+        pass
+    dropped = [d for ln, k, d in events if k == "return" and d[1]]
+    ok1 = bool(dropped) and all(d[1] == ["text", "children", "tail"] for d in dropped)
+    ctx.instance("R09c", f"{g.file}:{g.ident}", f"a dropped tag hands back {[d[1] for d in dropped]} (text, children, tail in order)", ok=ok1, nontrivial=True)
     if not ok1:
-        ctx.report("R09c", g, strip_arm, f"strip arm appends {s1}", "a stripped tag does not hand back its text, every child and its tail in document order")
-    s2 = seq(strip_arm.orelse, {"__append", "_Element__append", "append"})
-    ok2 = s2 == ["text", "child", "tail=tail"]
-    ctx.instance("R09c", f"{g.file}:{g.ident}", f"rebuilt element receives {s2}", ok=ok2, nontrivial=True)
-    if not ok2:
-        ctx.report("R09c", g, strip_arm, f"rebuild arm appends {s2}", "a kept element is not rebuilt from its text, its (stripped) children and its tail in order")
+        ctx.report("R09c", g, g.node, f"dropped tag returns {[d[1] for d in dropped]}", "a stripped tag does not hand back its text, every child and its tail in document order")
+    clears = [d for ln, k, d in events if k == "clear"]
+    okk = True
+    detail = []
+    for ln, k, recv in [e for e in events if e[1] == "clear"]:
+        apps = [d[1] for l2, k2, d in events if k2 == "rebuild-append" and d[0] == recv and l2 > ln]
+        flat = [x for a_ in apps for x in a_]
+        tails = [d for l2, k2, d in events if k2 == "tail=" and d[0] == recv and l2 > ln and "tail" in d[1]]
+        good = flat[:2] == ["text", "children"] and bool(tails)
+        detail.append((recv, flat, bool(tails)))
+        okk = okk and good
+    okk = okk and bool(clears)
+    ctx.instance("R09c", f"{g.file}:{g.ident}", f"a kept element is cleared and rebuilt from text, children, and its tail restored: {detail}", ok=okk, nontrivial=True)
+    if not okk:
+        ctx.report("R09c", g, g.node, f"rebuild after clear(): {detail}",
+                   "a kept element is cleared (lxml clear() also wipes the tail) and not rebuilt from its text, its children and its own tail: "
+                   "the text following a kept inline element is lost when a tag inside it is stripped")
     # the wrapper that builds a default paragraph appends every piece
     h = repo.func("Element.strip_tags")
     loop = [n for n in walk_no_nested(h.node) if isinstance(n, ast.For)]
@@ -328,5 +389,11 @@ SEEDS = [
          "            if tail is not None:\n                element_result.append(tail)\n            for child in children:\n                element_result.append(child)", "R09c"),
     Seed("strip_tags overwrites the text again", "fault", _EL,
          "                new.__append(content)\n            element = new", "                if isinstance(content, Element):\n                    new.__append(content)\n                else:\n                    new.text = content\n            element = new", "R09c"),
+    Seed("_strip_tags refactored around one content list, tail of kept elements forgotten", "fault", _EL,
+         "        text = element_clone.text\n        tail = element_clone.tail\n        if not protected and strip and element.tag in strip:\n            element_result: list[Element | str] = []\n            if text is not None:\n                element_result.append(text)\n            for child in children:\n                element_result.append(child)\n            if tail is not None:\n                element_result.append(tail)\n            return (element_result, True)\n        else:\n            if not modified:\n                return (element, False)\n            element.clear()\n            try:\n                for key, value in element_clone.attributes.items():\n                    element.set_attribute(key, value)\n            except ValueError:\n                sys.stderr.write(f\"strip_tags(): bad attribute in {element_clone}\\n\")\n            if text is not None:\n                element.__append(text)\n            for child in children:\n                element.__append(child)\n            if tail is not None:\n                element.tail = tail\n            return (element, True)\n",
+         "        content: list[Element | str] = []\n        if element_clone.text is not None:\n            content.append(element_clone.text)\n        content.extend(children)\n        if not protected and strip and element.tag in strip:\n            if element_clone.tail is not None:\n                content.append(element_clone.tail)\n            return (content, True)\n        if not modified:\n            return (element, False)\n        element.clear()\n        try:\n            for key, value in element_clone.attributes.items():\n                element.set_attribute(key, value)\n        except ValueError:\n            sys.stderr.write(f\"strip_tags(): bad attribute in {element_clone}\\n\")\n        for item in content:\n            element.__append(item)\n        return (element, True)\n", "R09c"),
+    Seed("_strip_tags refactored around one content list (tail restored)", "neutral", _EL,
+         "        text = element_clone.text\n        tail = element_clone.tail\n        if not protected and strip and element.tag in strip:\n            element_result: list[Element | str] = []\n            if text is not None:\n                element_result.append(text)\n            for child in children:\n                element_result.append(child)\n            if tail is not None:\n                element_result.append(tail)\n            return (element_result, True)\n        else:\n            if not modified:\n                return (element, False)\n            element.clear()\n            try:\n                for key, value in element_clone.attributes.items():\n                    element.set_attribute(key, value)\n            except ValueError:\n                sys.stderr.write(f\"strip_tags(): bad attribute in {element_clone}\\n\")\n            if text is not None:\n                element.__append(text)\n            for child in children:\n                element.__append(child)\n            if tail is not None:\n                element.tail = tail\n            return (element, True)\n",
+         "        content: list[Element | str] = []\n        if element_clone.text is not None:\n            content.append(element_clone.text)\n        content.extend(children)\n        if not protected and strip and element.tag in strip:\n            if element_clone.tail is not None:\n                content.append(element_clone.tail)\n            return (content, True)\n        if not modified:\n            return (element, False)\n        element.clear()\n        try:\n            for key, value in element_clone.attributes.items():\n                element.set_attribute(key, value)\n        except ValueError:\n            sys.stderr.write(f\"strip_tags(): bad attribute in {element_clone}\\n\")\n        for item in content:\n            element.__append(item)\n        if element_clone.tail is not None:\n            element.tail = element_clone.tail\n        return (element, True)\n"),
     unparse_seed(_P), unparse_seed(_EL),
 ]
